@@ -195,12 +195,25 @@ func ctlCase(tier string, idx int) (progCase, bool) {
 			body := append(append([]hs.Stmt{}, child...), hs.Println(sv("end %s", cname)))
 			blk := hs.Blk(nil, body...)
 			lit := &hs.FnLit{Body: blk}
+			// the function literal sits BETWEEN control constructs of the same kinds in one function
+			// (whatever the compiler numbers per function must not restart at the literal)
+			mini := func(tag string) []hs.Stmt {
+				ev := fmt.Sprintf("m%s%d", tag, i)
+				return []hs.Stmt{
+					hs.ES(&hs.Try{Body: hs.Blk(nil, hs.ES(hs.CallN("throw", hs.S(tag+"-t")))), Var: ev, Catch: hs.Blk(nil, hs.Println(sv("%s-caught%d", tag, i), hs.Mem(hs.V(ev), "message")))}),
+					&hs.Loop{Body: hs.Blk(nil, hs.Println(sv("%s-loop%d", tag, i)), &hs.Break{})},
+					hs.ES(&hs.If{Cond: hs.Bin("==", hs.V("G"), hs.I(0)), Then: hs.Blk(nil, hs.Println(sv("%s-if%d", tag, i))), Else: hs.Blk(nil, hs.Println(hs.S("never")))}),
+					hs.ES(&hs.Match{X: hs.V("G"), Arms: []hs.MatchArm{{Lits: []hs.Expr{hs.I(0)}, Body: &hs.BlockExpr{B: hs.Blk(nil, hs.Println(sv("%s-match%d", tag, i)))}}, {Body: &hs.BlockExpr{B: hs.Blk(nil)}}}}),
+				}
+			}
 			if exit == "return-value" && innermostFn(levels) == i {
 				lit.Ret = hs.TInt
 				blk.Tail = hs.I(3)
-				return []hs.Stmt{hs.LetS(cname, lit), hs.Println(hs.S(a)), hs.Println(hs.S("ret"), hs.CallN(cname)), hs.Println(hs.S(b))}
+				out := append(mini("pre"), hs.LetS(cname, lit), hs.Println(hs.S(a)), hs.Println(hs.S("ret"), hs.CallN(cname)), hs.Println(hs.S(b)))
+				return append(out, mini("post")...)
 			}
-			return []hs.Stmt{hs.LetS(cname, lit), hs.Println(hs.S(a)), hs.ES(hs.CallN(cname)), hs.Println(hs.S(b))}
+			out := append(mini("pre"), hs.LetS(cname, lit), hs.Println(hs.S(a)), hs.ES(hs.CallN(cname)), hs.Println(hs.S(b)))
+			return append(out, mini("post")...)
 		}
 		return nil
 	}
